@@ -168,4 +168,58 @@ theorem exists_quat_of_trace_ne (r : M3 ℝ) (h : IsRot r) (ht : r.trace ≠ -1)
     · linear_combination (-2 * ((r.a21 - r.a12) * (r.a21 - r.a12) + (r.a02 - r.a20) * (r.a02 - r.a20))) * hk2
         - (1 / 2) * hn - (1 / 2) * e22
 
+/-! ### the triangle inequality on the cosine cores -/
+
+/-- `arccos(2a² − 1) = 2·arccos|a|` for `|a| ≤ 1` (half-angle) -/
+theorem arccos_double (a : ℝ) (h : |a| ≤ 1) : arccos (2 * a ^ 2 - 1) = 2 * arccos |a| := by
+  have h0 : 0 ≤ |a| := abs_nonneg a
+  have hcos : cos (arccos |a|) = |a| := Real.cos_arccos (by linarith) h
+  have hle : arccos |a| ≤ π / 2 := Real.arccos_le_pi_div_two.mpr h0
+  have h2 : cos (2 * arccos |a|) = 2 * a ^ 2 - 1 := by
+    rw [Real.cos_two_mul, hcos, sq_abs]
+  rw [← h2, Real.arccos_cos (by linarith [Real.arccos_nonneg |a|]) (by linarith)]
+
+theorem angleCore_fst_of_trace (m : M3 ℝ) (t : ℝ) (h : m.trace = 4 * t ^ 2 - 1) :
+    m.angleCore.1 = 2 * t ^ 2 - 1 := by
+  rw [M3.angleCore_fst, h]; ring
+
+/-- for proper rotations `X`, `Y`: `arccos c(X·Y) ≤ arccos c(X) + arccos c(Y)`, `c(R) = (tr R − 1)/2` -/
+theorem arccos_core_mul_le (x y : M3 ℝ) (hx : IsRot x) (hy : IsRot y) :
+    arccos (x.mul y).angleCore.1 ≤ arccos x.angleCore.1 + arccos y.angleCore.1 := by
+  have hpi : ∀ m : M3 ℝ, m.trace = -1 → arccos m.angleCore.1 = π := by
+    intro m hm
+    rw [M3.angleCore_fst, hm]
+    have : ((-1 : ℝ) - 1) / (1 + 1) = -1 := by norm_num
+    rw [this, Real.arccos_neg_one]
+  by_cases hxt : x.trace = -1
+  · rw [hpi x hxt]
+    linarith [Real.arccos_le_pi (x.mul y).angleCore.1, Real.arccos_nonneg y.angleCore.1]
+  by_cases hyt : y.trace = -1
+  · rw [hpi y hyt]
+    linarith [Real.arccos_le_pi (x.mul y).angleCore.1, Real.arccos_nonneg x.angleCore.1]
+  obtain ⟨a, b, c, d, hp, rfl⟩ := exists_quat_of_trace_ne x hx hxt
+  obtain ⟨w, u, v, z, hq, rfl⟩ := exists_quat_of_trace_ne y hy hyt
+  have hpc : a * a + -b * -b + -c * -c + -d * -d = 1 := by linear_combination hp
+  have he : (1 : ℝ) * 1 + 0 * 0 + 0 * 0 + 0 * 0 = 1 := by norm_num
+  -- X·Y = R(p̄)ᵀ·R(q)
+  have hmul : (quatRot a b c d).mul (quatRot w u v z)
+      = relSo3 (quatRot a (-b) (-c) (-d)) (quatRot w u v z) := by
+    unfold relSo3; rw [quatRot_conj, M3.transpose_transpose]
+  have c1 := angleCore_fst_of_trace _ _ (quatRot_rel_trace a (-b) (-c) (-d) w u v z hpc hq)
+  have c2 := angleCore_fst_of_trace (quatRot a b c d) a (by rw [quatRot_trace _ _ _ _ hp]; ring)
+  have c3 := angleCore_fst_of_trace (quatRot w u v z) w (by rw [quatRot_trace _ _ _ _ hq]; ring)
+  rw [hmul, c1, c2, c3]
+  have b1 := abs_qdot_le_one a (-b) (-c) (-d) w u v z hpc hq
+  have b2 := abs_qdot_le_one a (-b) (-c) (-d) 1 0 0 0 hpc he
+  have b3 := abs_qdot_le_one 1 0 0 0 w u v z he hq
+  have t := arccos_abs_inner_triangle (qvec a (-b) (-c) (-d)) (qvec 1 0 0 0) (qvec w u v z)
+    (qvec_norm _ _ _ _ hpc) (qvec_norm _ _ _ _ he) (qvec_norm _ _ _ _ hq)
+  rw [qvec_inner, qvec_inner, qvec_inner] at t
+  have s2 : a * 1 + -b * 0 + -c * 0 + -d * 0 = a := by ring
+  have s3 : 1 * w + 0 * u + 0 * v + 0 * z = w := by ring
+  rw [s2] at b2 t
+  rw [s3] at b3 t
+  rw [arccos_double _ b1, arccos_double _ b2, arccos_double _ b3]
+  linarith
+
 end Evo
